@@ -164,6 +164,18 @@ func TestPropCloneCtx(t *testing.T) {
 	evid.SetExhaustive("clonectx")
 }
 
+// FuzzFreeze: coverage-guided exploration of the same generator (rapid.MakeFuzz turns the fuzzer's bytes into draws).
+func FuzzFreeze(f *testing.F) {
+	f.Fuzz(rapid.MakeFuzz(func(t *rapid.T) {
+		c := gen(t)
+		o := check(c)
+		if o.Violation != "" && !(o.Finding != "" && evid.IsKnown(o.Finding)) {
+			evid.Record("fuzzfreeze", c, o)
+			t.Fatalf("%s replay=%s", o.Violation, evid.SaveFailure("fuzzfreeze"))
+		}
+	}))
+}
+
 func TestReplay(t *testing.T) {
-	evid.Replay(t, evid.R("freeze", check), evid.R("clonectx", check))
+	evid.Replay(t, evid.R("fuzzfreeze", check), evid.R("freeze", check), evid.R("clonectx", check))
 }
